@@ -1,5 +1,5 @@
 (* Pinned statements for C04: a changed statement or a new axiom fails the check. *)
-From SwimV Require Import Model.Uplinks Proofs.UplinksProofs Props.C04.
+From SwimV Require Import Model.Uplinks Proofs.UplinksProofs Model.ValuePipeline Proofs.ValuePipelineProofs Proofs.ValueGrammarProofs Props.C04.
 Open Scope N_scope.
 Check (C04_tasks_justified) : (forall kf ops, Forall (well_kinded kf) ops -> forall h t, In (h, Some t) (urun uplinks0 [] ops) -> task_ok kf h t).
 Print Assumptions C04_tasks_justified.
@@ -9,3 +9,13 @@ Check (C04_no_task_while_writer_out) : (forall u o, u_writer u = false -> o <> U
 Print Assumptions C04_no_task_while_writer_out.
 Check (C04_specials_first) : (forall u a rest, u_writer u = false -> u_sq u = a :: rest -> snd (replace_and_pop u) = Some {| wt_lane := special_lane a; wt_action := WSpecial a |} /\ u_sq (fst (replace_and_pop u)) = rest).
 Print Assumptions C04_specials_first.
+Check (C04_value_stream_is_grammatical) : (forall init ops r x, aget r (p_rems (pexec (pipe0 init) ops)) = Some x -> exists g, gram (r_sent x) = Some g).
+Print Assumptions C04_value_stream_is_grammatical.
+Check (C04_delivered_frames_are_grammatical) : (forall init ops r, gram_ok (frames_for r ops (prun (pipe0 init) ops)) = true).
+Print Assumptions C04_delivered_frames_are_grammatical.
+Check (C04_synced_only_when_asked) : (forall init ops r x, aget r (p_rems (pexec (pipe0 init) ops)) = Some x -> (count_synced (r_sent x) <= asked r ops)%nat).
+Print Assumptions C04_synced_only_when_asked.
+Check (C04_stopped_agent_closes_every_link) : (forall init ops1 ops2 r x, let p := pexec (pipe0 init) (ops1 ++ PStopAll :: ops2) in Forall (fun o => match o with PDone _ => True | _ => False end) ops2 -> aget r (p_rems p) = Some x -> v_home (r_up x) = true -> gram (r_sent x) = Some GOut).
+Print Assumptions C04_stopped_agent_closes_every_link.
+Check (C04_stop_witness) : (let p := pexec (pipe0 [48]) ([PAdd 1; PLink 1; PDone 1; PSet [53]; PWrite] ++ PStopAll :: [PDone 1; PDone 1; PDone 1]) in exists x, aget 1 (p_rems p) = Some x /\ v_home (r_up x) = true /\ r_sent x = [FLinked 0; FEvent 0 [53]; FUnlinked 0 1]).
+Print Assumptions C04_stop_witness.
